@@ -85,6 +85,10 @@ func genC0x(r *hysim.Rand, tier string, c02 bool) *hysim.Script {
 			sc.Ops = append(sc.Ops, hysim.Op{K: "tcp", A: []int64{c, async, int64(r.Pick(0, 1, 40, 1000)), r.Pick64(300, 1500, 4000)}})
 		case p < 88:
 			sc.Ops = append(sc.Ops, hysim.Op{K: "dgram", A: []int64{c, 0, int64(r.Range(1, 3)), int64(r.Pick(1, 20, 500)), int64(r.Pick(0, 0, 0, 1))}})
+		case p < 93:
+			// the client disconnects and a new connection takes its place (fresh source address):
+			// nothing of the old connection's authentication may carry over
+			sc.Ops = append(sc.Ops, hysim.Op{K: "redial", A: []int64{c, 0}})
 		default:
 			sc.Ops = append(sc.Ops, hysim.Op{K: "pause", A: []int64{c, 0, r.Pick64(1, 20, 200, 3000)}})
 		}
@@ -136,6 +140,8 @@ type c01World struct {
 	clean   bool
 	pending int
 	done    chan struct{}
+	retired []*rawConn // connections replaced by a redial (already closed)
+	opLocal map[int]string // op index -> source address of the connection the op was issued on
 }
 
 func connOfAddr(reqAddr string) (ci, oi int, ok bool) {
@@ -161,9 +167,10 @@ func (cw *c01World) checkOutbound(kind, reqAddr string, seq uint64) {
 		x.Violate("foreign-outbound", "Outbound.%s(%q): no client asked for this address", kind, reqAddr)
 		return
 	}
-	c := cw.conns[ci]
-	if !cw.acceptedBefore(c, seq) {
-		x.Violate("proxy-before-auth", "Outbound.%s(%q) at seq %d for connection c%d (%s), on which no authentication has been accepted (accepted=%v)", kind, reqAddr, seq, ci, c.local(), cw.accepted)
+	_, oi, _ := connOfAddr(reqAddr)
+	local := cw.opLocal[oi]
+	if s, ok := cw.accepted[local]; !ok || s >= seq {
+		x.Violate("proxy-before-auth", "Outbound.%s(%q) at seq %d for connection c%d (%s), on which no authentication has been accepted (accepted=%v)", kind, reqAddr, seq, ci, local, cw.accepted)
 	}
 	if kind != "tcp" && cw.udpOff {
 		x.Violate("udp-while-disabled", "Outbound.%s(%q) although UDP is disabled on the server", kind, reqAddr)
@@ -180,7 +187,7 @@ func (c *c01Conn) local() string {
 func execC01(x *hysim.Run) {
 	sc := x.Script
 	w := newWorld(x, linkFromScript(sc))
-	cw := &c01World{wWorld: w, udpOff: sc.Get("udp_disabled", 0) == 1, customM: sc.Get("masq", 0) == 1, done: make(chan struct{}, 1024)}
+	cw := &c01World{wWorld: w, udpOff: sc.Get("udp_disabled", 0) == 1, customM: sc.Get("masq", 0) == 1, done: make(chan struct{}, 1024), opLocal: map[int]string{}}
 	w.authDelay = time.Duration(sc.Get("auth_delay_ms", 0)) * time.Millisecond
 	cw.clean = sc.Get("net_loss", 0) == 0 && sc.Get("net_dup", 0) == 0 && sc.Get("net_reorder", 0) == 0
 	w.onTCP = func(reqAddr string, seq uint64) (net.Conn, error) {
@@ -280,17 +287,11 @@ func execC01(x *hysim.Run) {
 		// every connection is gone: nobody may still be listed, and each accepted connection was
 		// announced exactly once
 		acceptedBy := map[string]int{}
-		for _, c := range cw.conns {
-			if c.rc == nil {
-				continue
-			}
-			if _, ok := w.accepted[c.rc.local]; ok {
-				for _, a := range w.authCalls {
-					if a.addr == c.rc.local && a.ok {
-						acceptedBy[a.id]++
-						break
-					}
-				}
+		seenAddr := map[string]bool{}
+		for _, a := range w.authCalls { // every connection ever made (also replaced ones): first accept per address
+			if a.ok && !seenAddr[a.addr] {
+				seenAddr[a.addr] = true
+				acceptedBy[a.id]++
 			}
 		}
 		for _, u := range sortedKeys(onlineUp) {
@@ -321,7 +322,24 @@ func execC01(x *hysim.Run) {
 func (cw *c01World) runOp(c *c01Conn, oi int, op hysim.Op) {
 	x := cw.x
 	rc := c.rc
+	cw.opLocal[oi] = rc.local
 	switch op.K {
+	case "redial":
+		// wait for this connection's outstanding work, close it, let the server notice, reconnect
+		x.Ev("c%d o%d redial (old %s)", c.idx, oi, c.local())
+		old := c.rc
+		cw.retired = append(cw.retired, old)
+		old.close()
+		time.Sleep(300 * time.Millisecond)
+		nrc, err := cw.dialRaw(c.idx, 20*time.Second)
+		if err != nil {
+			x.Probe("raw-dial-failed")
+			c.rc = old // keep a (closed) connection object: later ops fail harmlessly
+			return
+		}
+		c.rc = nrc
+		c.authShaped, c.credsSent, c.replyBytes = 0, nil, 0
+		x.Probe("connection-replaced")
 	case "pause":
 		time.Sleep(time.Duration(op.Arg(2)) * time.Millisecond)
 	case "auth":
@@ -477,7 +495,13 @@ func (cw *c01World) opTCP(c *c01Conn, oi int, op hysim.Op) {
 		return
 	}
 	// nothing received
-	if accBeforeInv && cw.clean && x.StallCount() == 0 && wait >= 1500*time.Millisecond && cw.authDelayShort() {
+	retired := false
+	for _, o := range cw.retired {
+		if o == rc {
+			retired = true // the script itself replaced (closed) this connection meanwhile
+		}
+	}
+	if accBeforeInv && cw.clean && x.StallCount() == 0 && wait >= 1500*time.Millisecond && cw.authDelayShort() && !retired {
 		x.Violate("proxy-denied-after-auth", "c%d o%d: authenticated connection got no reply to a proxy request within %v on a fault-free network (err=%v)", c.idx, oi, wait, rerr)
 	}
 	if !accBeforeRet {
@@ -637,15 +661,16 @@ func (cw *c01World) finalChecks() {
 		if e.kind != "tcprequest" && e.kind != "udprequest" {
 			continue
 		}
-		ci, _, ok := connOfAddr(e.req)
-		if !ok || ci >= len(cw.conns) || cw.conns[ci].rc == nil {
+		ci, oi, ok := connOfAddr(e.req)
+		local, known := cw.opLocal[oi]
+		if !ok || ci >= len(cw.conns) || !known {
 			continue
 		}
-		if e.addr != cw.conns[ci].rc.local {
-			x.Violate("cross-connection", "%s for %q logged for connection %s, but it was requested on c%d (%s)", e.kind, e.req, e.addr, ci, cw.conns[ci].rc.local)
+		if e.addr != local {
+			x.Violate("cross-connection", "%s for %q logged for connection %s, but it was requested on c%d (%s)", e.kind, e.req, e.addr, ci, local)
 		}
-		if !cw.acceptedBefore(cw.conns[ci], e.seq) {
-			x.Violate("proxy-before-auth", "%s for %q logged before an accepted authentication on c%d", e.kind, e.req, ci)
+		if s, acc := cw.accepted[local]; !acc || s >= e.seq {
+			x.Violate("proxy-before-auth", "%s for %q logged before an accepted authentication on c%d (%s)", e.kind, e.req, ci, local)
 		}
 	}
 	nacc := 0
